@@ -56,7 +56,10 @@ class Spec:
 
 
 def is_auxiliary(obname: str) -> bool:
-    return bool(re.search(r"/loop\d+/(inv-entry|inv-preserved|frame/)", obname)) or "recursion-measure" in obname
+    # loop invariants / frames / measures, and the structural (AST) obligations: side conditions of the proof.  When one of them
+    # no longer holds for the code, the proof does not go through any more - which is "undecided" unless a failing input is found
+    # on the real code (a renamed local or a harmless setter must not become an alarm).
+    return bool(re.search(r"/loop\d+/(inv-entry|inv-preserved|frame/)", obname)) or "recursion-measure" in obname or "/syntactic/" in obname
 
 
 def path_signature(labels):
@@ -404,7 +407,7 @@ def run_property(pid: str, tier: str = "quick", seed: int = 0) -> int:
         return finish(1, f"{len(vio_out)} failed obligation(s) on {len(violations)} path(s)")
     if aux_unconfirmed:
         ev["coverage"]["auxiliary_obligations_not_inductive"] = aux_unconfirmed
-        return undecided(f"{len(aux_unconfirmed)} loop-invariant/frame/measure obligation(s) fail for this code and no failing input was found: {aux_unconfirmed[:3]}")
+        return undecided(f"{len(aux_unconfirmed)} loop-invariant/frame/measure/structural obligation(s) fail for this code and no failing input was found: {aux_unconfirmed[:3]}")
     if by["unknown"]:
         ev["coverage"]["undecided_names"] = [ob.name for ob in by["unknown"]][:40]
         return undecided(f"{len(by['unknown'])} obligation(s) left open by all back ends")
